@@ -157,11 +157,11 @@ type tblSys struct {
 	// useRefFailed is switched on while the C06 transition oracle runs: C05's agreement between
 	// API counts and entries is about the implementation's own view, C06's "bad" is the reference's
 	useRefFailed bool
-	start     time.Time
-	tidSeq    int
+	start        time.Time
+	tidSeq       int
 }
 
-func newTblSys(cfg tblCfg) *tblSys {
+func newTblSys(cfg tblCfg, extra ...SysOpt) *tblSys {
 	opts := []SysOpt{func(c *dht.ServerConfig) {
 		c.QueryResendDelay = func() time.Duration { return tblResend }
 		if cfg.Security {
@@ -171,6 +171,7 @@ func newTblSys(cfg tblCfg) *tblSys {
 			c.IPBlocklist = cfg.Block
 		}
 	}}
+	opts = append(opts, extra...)
 	y := &tblSys{Sys: NewSys(opts...), cfg: cfg, peers: tblPeers(cfg.Security), byKey: map[string]string{}, start: time.Now()}
 	for n, p := range y.peers {
 		y.byKey[p.Addr.String()+"|"+fmt.Sprintf("%x", p.ID)] = n
